@@ -236,6 +236,7 @@ def build(tier, seed):
     cases.append({'kind': 'transports'})
     cases.append({'kind': 'pandas'})
     cases.append({'kind': 'dict'})
+    cases.append({'kind': 'sequence'})
     return cases
 
 
@@ -266,6 +267,8 @@ def run_case(case):
                 run_pandas(pe, acc, case, d)
             elif k == 'dict':
                 run_dict(pe, acc, case, d)
+            elif k == 'sequence':
+                run_sequence(pe, acc, case, d)
     finally:
         shutil.rmtree(d, ignore_errors=True)
     return acc
@@ -408,6 +411,58 @@ def run_transports(pe, acc, case, d):
     acc.sample({'kind': 'transports', 'via': ['Obs.dump json.gz/pickle', 'Corr.dump', 'pickle', 'several structures in one document']})
 
 
+def run_sequence(pe, acc, case, d):
+    """Call history of the reader: observables on configuration lists that are easily confused (same chain name, first / last
+    configuration and length, different interior) read one after the other, in every order, from separate files and from one file."""
+    groups = [['eqA', 'eqB'], ['eqC', 'eqD'], ['trA', 'trB'], ['irr', 'irr2'], ['eqR', 's3']]
+    extra = {'h1': [1, 2, 3, 5, 6, 8, 9, 10, 12, 13, 14, 16], 'h2': [1, 2, 4, 5, 6, 7, 9, 11, 12, 14, 15, 16], 'h3': [1, 3, 4, 5, 7, 8, 9, 10, 11, 13, 15, 16]}
+    groups.append(sorted(extra))
+    cfg = dict(alpha.CFG, **extra)
+
+    def mk(cid, second):
+        names = ['A|r1'] + (['A|r2'] if second else [])
+        cl = [cfg[cid]] + ([cfg['c8']] if second else [])
+        r = alpha.rng('c11seq', cid, second)
+        return pe.Obs([r.normal(1.0, 0.2, size=len(c)) for c in cl], names, idl=[alpha.idl_carrier(c) for c in cl])
+    for gi, grp in enumerate(groups):
+        for second in (False, True):
+            objs = {cid: mk(cid, second) for cid in grp}
+            for order in itertools.permutations(grp):
+                sub = dict(case, group=gi, order=list(order), second_replica=second)
+                bad = None
+                try:
+                    for via in ('string', 'file'):
+                        for cid in order:
+                            if via == 'string':
+                                back = pe.input.json.import_json_string(pe.input.json.create_json_string(objs[cid]), verbose=False)
+                            else:
+                                fn = os.path.join(d, 'seq_%s' % cid)
+                                pe.input.json.dump_to_json(objs[cid], fn, gz=False)
+                                back = pe.input.json.load_json(fn, verbose=False, gz=False)
+                                os.remove(fn + '.json')
+                            bad = bad or same_obs(objs[cid], back, pe)
+                            if bad:
+                                bad = 'read as number %d of %s via %s: %s' % (list(order).index(cid) + 1, list(order), via, bad)
+                                break
+                        if bad:
+                            break
+                    if not bad:
+                        lst = [objs[cid] for cid in order]
+                        back = pe.input.json.import_json_string(pe.input.json.create_json_string([lst[0]] + [[o] for o in lst[1:]]), verbose=False)
+                        flat = [back[0]] + [b[0] if isinstance(b, list) else b for b in back[1:]]
+                        for o, b in zip(lst, flat):
+                            bad = bad or same_obs(o, b, pe)
+                        if bad:
+                            bad = 'several structures in one document %s: %s' % (list(order), bad)
+                except Exception as e:
+                    bad = 'raised %s: %s' % (type(e).__name__, e)
+                if bad:
+                    acc.fail('json:sequence', sub, bad)
+                else:
+                    acc.ok(('seq', gi, second, order), True, 'sequence')
+    acc.sample({'kind': 'sequence', 'groups': groups, 'orders': 'every permutation'})
+
+
 def run_pandas(pe, acc, case, d):
     import pandas as pd
     for content in ('single', 'tworep', 'multi', 'bare'):
@@ -445,6 +500,22 @@ def run_pandas(pe, acc, case, d):
                             bad = same_struct(a, b, pe)
                             if bad:
                                 bad = 'cell %s[%d]: %s' % (col, i, bad)
+                if not bad:
+                    # the objects handed out are the caller's: modify them, read the same table again
+                    try:
+                        for i in range(rows):
+                            back['obs'][i].tag = 'modified by the caller'
+                            back['lst'][i].append('extra')
+                            back['corr'][i].tag = 'modified'
+                            back['corr'][i].content[[t for t in range(4) if back['corr'][i].content[t] is not None][0]] = None
+                        again = pe.input.pandas.load_df(fn, gz=gz) if via == 'csv' else pe.input.pandas.read_sql('SELECT * FROM tab', db)
+                        for col in ('obs', 'lst', 'corr'):
+                            for i in range(rows):
+                                bad = bad or same_struct(df[col][i], again[col][i], pe)
+                        if bad:
+                            bad = 'second read after the caller modified the objects of the first read: ' + bad
+                    except Exception as e:
+                        bad = 'second read raised %s: %s' % (type(e).__name__, e)
                 if bad:
                     acc.fail('pandas:%s' % via, sub, '%s via %s gz=%s: %s' % (content, via, gz, bad))
                 else:
